@@ -30,6 +30,20 @@ type od2Env struct {
 	// interpreted in turn, to a small depth
 	inModule func(*ssa.Function) bool
 	depth    int
+	// scale: the parameters range over a dense order (a type parameter that admits
+	// floats): representatives are given in units of 1/scale and every constant of
+	// such a type in the body is multiplied by scale, so that values strictly between
+	// two consecutive integer constants are represented (0 < x < 1)
+	scale int64
+}
+
+// od2Dense: constants of this type are in the units of the parameters.
+func od2Dense(t types.Type) bool {
+	if _, ok := t.(*types.TypeParam); ok {
+		return true
+	}
+	b, ok := t.Underlying().(*types.Basic)
+	return ok && b.Info()&types.IsFloat != 0
 }
 
 type od2Val struct {
@@ -51,14 +65,19 @@ func od2Eval(fn *ssa.Function, env od2Env) (res od2Val, ok bool, why string) {
 			if x.Value == nil {
 				return od2Val{}, false
 			}
+			sc := int64(1)
+			if env.scale > 1 && od2Dense(x.Type()) {
+				sc = env.scale
+			}
 			switch x.Value.Kind() {
 			case constant.Int:
 				n, exact := constant.Int64Val(x.Value)
-				return od2Val{n: n}, exact
+				return od2Val{n: n * sc}, exact
 			case constant.Bool:
 				return od2Val{isBool: true, b: constant.BoolVal(x.Value)}, true
 			case constant.Float:
 				f, _ := constant.Float64Val(x.Value)
+				f *= float64(sc)
 				if f == float64(int64(f)) {
 					return od2Val{n: int64(f)}, true
 				}
@@ -126,7 +145,7 @@ func od2Eval(fn *ssa.Function, env od2Env) (res od2Val, ok bool, why string) {
 			case *ssa.Call:
 				prm, isP := x.Call.Value.(*ssa.Parameter)
 				if callee := path.StaticCallee(x); !isP && callee != nil && env.inModule != nil && env.inModule(callee) && env.depth < 3 && len(callee.Params) == len(x.Call.Args) && len(callee.Blocks) > 0 {
-					sub := od2Env{params: map[*ssa.Parameter]int64{}, comp: env.comp, inModule: env.inModule, depth: env.depth + 1}
+					sub := od2Env{params: map[*ssa.Parameter]int64{}, comp: env.comp, inModule: env.inModule, depth: env.depth + 1, scale: env.scale}
 					okArgs := true
 					for i, a := range x.Call.Args {
 						v, ok := get(a)
@@ -215,6 +234,17 @@ func od2Check(c rc, spec od2Spec) {
 		return
 	}
 	reps := []int64{-2, -1, 0, 1, 2}
+	scale := int64(1)
+	if spec.nNum > 0 && od2Dense(fn.Params[0].Type()) {
+		// a dense order: half units, so that the open interval between two consecutive
+		// integer constants of the body has a representative
+		scale = 2
+		reps = []int64{-4, -3, -2, -1, 0, 1, 2, 3, 4}
+	}
+	resScale := int64(1)
+	if od2Dense(fn.Signature.Results().At(0).Type()) {
+		resScale = scale
+	}
 	// comparator oracles: the four boolean pairs (comp(a,b), comp(b,a)) are produced by <, >, never, always
 	oracles := []func(x, y int64) bool{nil}
 	if spec.comp {
@@ -235,7 +265,7 @@ func od2Check(c rc, spec od2Spec) {
 				return
 			}
 			for oi, o := range oracles {
-				env := od2Env{params: map[*ssa.Parameter]int64{}, comp: o, inModule: c.p.InModule}
+				env := od2Env{params: map[*ssa.Parameter]int64{}, comp: o, inModule: c.p.InModule, scale: scale}
 				for k := 0; k < spec.nNum; k++ {
 					env.params[fn.Params[k]] = args[k]
 				}
@@ -255,7 +285,7 @@ func od2Check(c rc, spec od2Spec) {
 					bad++
 					if bad <= 1 {
 						c.r.Violation(coreDiag("OD2", spec.name, "defining inequality", c.fpos(fn),
-							fmt.Sprintf("for arguments ordered like %v (comparator case %d) the function yields %s, its definition requires %s", args, oi, od2Str(got), od2Str(want))))
+							fmt.Sprintf("for arguments ordered like %s (comparator case %d) the function yields %s, its definition requires %s", od2Show(args, scale), oi, od2Res(got, resScale), od2Res(want, resScale))))
 					}
 				}
 			}
@@ -275,4 +305,24 @@ func od2Str(v od2Val) string {
 		return fmt.Sprint(v.b)
 	}
 	return fmt.Sprint(v.n)
+}
+
+// od2Show prints representatives in the units of the source (half units when the
+// parameters range over a dense order).
+func od2Show(a []int64, scale int64) string {
+	out := "["
+	for i, x := range a {
+		if i > 0 {
+			out += " "
+		}
+		out += fmt.Sprint(float64(x) / float64(scale))
+	}
+	return out + "]"
+}
+
+func od2Res(v od2Val, scale int64) string {
+	if v.isBool {
+		return fmt.Sprint(v.b)
+	}
+	return fmt.Sprint(float64(v.n) / float64(scale))
 }
